@@ -391,6 +391,14 @@ type flight struct {
 	from, to sharing.ID
 	data     []byte
 	seq      int
+	cid      string
+}
+
+func cidOf(data []byte) string {
+	if wm, err := serde.UnmarshalCBOR[wireMsg](data); err == nil {
+		return wm.CorrelationID
+	}
+	return ""
 }
 
 type partyResult struct {
@@ -407,7 +415,10 @@ func runHub(t *testing.T, insts []*instance, mode hubMode, seed int64, idx int) 
 	synctest.Test(t, func(t *testing.T) {
 		r := vh.NewRng(seed, "C11", "runner-order/"+mode.name, idx)
 		var mu sync.Mutex
-		var pool []flight
+		// pool: messages in flight in a canonical order.  Parties run in parallel between two
+		// quiescent points, so the order in which their sends reach the hub is not reproducible:
+		// sends are collected in `incoming` and merged, sorted by content, at the next quiescent point.
+		var pool, incoming []flight
 		seq := 0
 		tampered := false
 		q := append([]sharing.ID(nil), runnerIDs...)
@@ -430,7 +441,7 @@ func runHub(t *testing.T, insts []*instance, mode hubMode, seed int64, idx int) 
 				mu.Lock()
 				defer mu.Unlock()
 				seq++
-				pool = append(pool, flight{id, to, data, seq})
+				incoming = append(incoming, flight{id, to, data, seq, cidOf(data)})
 				if mode.tamper == "" || id != mode.cheater || to != victim || tampered {
 					return
 				}
@@ -449,7 +460,7 @@ func runHub(t *testing.T, insts []*instance, mode hubMode, seed int64, idx int) 
 					if alt, err := serde.MarshalCBOR(&wm); err == nil {
 						tampered = true
 						seq++
-						pool = append(pool, flight{id, to, alt, seq}) // a second, different message under the same id
+						incoming = append(incoming, flight{id, to, alt, seq, wm.CorrelationID}) // a second, different message under the same id
 					}
 				case "equivocate":
 					if !strings.Contains(wm.CorrelationID, "EchoRound1P2P") {
@@ -459,7 +470,7 @@ func runHub(t *testing.T, insts []*instance, mode hubMode, seed int64, idx int) 
 					wm.Payload[len(wm.Payload)-1] ^= 1
 					if alt, err := serde.MarshalCBOR(&wm); err == nil {
 						tampered = true
-						pool[len(pool)-1].data = alt // the victim gets a different round-1 payload than the others
+						incoming[len(incoming)-1].data = alt // the victim gets a different round-1 payload than the others
 					}
 				}
 			}
@@ -490,6 +501,21 @@ func runHub(t *testing.T, insts []*instance, mode hubMode, seed int64, idx int) 
 		for steps := 0; steps < 200000; steps++ {
 			synctest.Wait()
 			mu.Lock()
+			sort.Slice(incoming, func(i, j int) bool {
+				a, b := incoming[i], incoming[j]
+				if a.from != b.from {
+					return a.from < b.from
+				}
+				if a.to != b.to {
+					return a.to < b.to
+				}
+				if a.cid != b.cid {
+					return a.cid < b.cid
+				}
+				return string(a.data) < string(b.data)
+			})
+			pool = append(pool, incoming...)
+			incoming = nil
 			if len(pool) == 0 {
 				mu.Unlock()
 				break
